@@ -84,7 +84,11 @@ for fam, sf, T, hdr, npop in (("subtract", functor("subtract", "N"), "i4", H % "
     OPS.append(dict(name="acc_%s_%s_dN" % (fam, T), grp="accum", kind="accumulate", fam=fam, op=fam, T=T, R=T, dtype="N", call=call, sf=sf, hdr=hdr, npop=npop, data="labels"))
 for fam, op, T, dt, hdr in (("cumsum", "add", "i4", "N", "nmtools/array/view/cumsum.hpp"), ("cumsum", "add", "f8", "N", "nmtools/array/view/cumsum.hpp"),
                             ("cumsum", "add", "i4", "f8", "nmtools/array/view/cumsum.hpp"),
-                            ("cumprod", "multiply", "i4", "N", "nmtools/array/view/cumprod.hpp"), ("cumprod", "multiply", "f8", "N", "nmtools/array/view/cumprod.hpp")):
+                            ("cumsum", "add", "i4", "i8", "nmtools/array/view/cumsum.hpp"),
+                            ("cumprod", "multiply", "i4", "N", "nmtools/array/view/cumprod.hpp"), ("cumprod", "multiply", "f8", "N", "nmtools/array/view/cumprod.hpp"),
+                            # an explicit dtype must type (and carry) the running fold of the named wrappers too
+                            ("cumprod", "multiply", "i4", "f8", "nmtools/array/view/cumprod.hpp"), ("cumprod", "multiply", "i4", "i8", "nmtools/array/view/cumprod.hpp"),
+                            ("cumprod", "multiply", "f8", "f4", "nmtools/array/view/cumprod.hpp")):
     call = "view::%s(a, axis%s)" % (fam, "" if dt == "N" else ", " + DTYPE[dt])
     OPS.append(dict(name="acc_%s_%s_d%s" % (fam, T, dt), grp="accum", kind="accumulate", fam=fam, op=op, T=T, R=T if dt == "N" else dt, dtype=dt, call=call,
                     sf=functor(op, dt), hdr=hdr, npop=op, data=DATA[op]))
